@@ -37,7 +37,8 @@ def initial_trees():
     t["plain"] = {"src/a.py": H + "a = 1\n", "src/sub/b.c": "int b;\n", "README.md": "readme\n", "LICENSES/MIT.txt": "mit\n", "docs/notes.txt": "notes\n",
                   "src-old/c.py": "c = 1\n", "srcfile.py": "d = 1\n", "empty.txt": {"empty": True}, "img.png": {"hex": PNG_HEX},
                   "LICENSES/LicenseRef-x.txt": "the project's own custom licence\n", "vendor-texts/LicenseRef-x.txt": "a different text\n",
-                  "vendor-texts/LicenseRef-y.txt": "text y\n"}
+                  "vendor-texts/LicenseRef-y.txt": "text y\n", "legacy1.c": {"latin1": "/* J\xfcrgen */\nint a;\n"}, "old/legacy2.c": {"latin1": "/* caf\xe9 */\n"},
+                  "old/legacy3.py": {"latin1": "# na\xefve\n"}, "zz_legacy4.c": {"latin1": "/* \xe5 */\n"}, "old/pic.png": {"hex": PNG_HEX}}
     t["git"] = {"src/a.py": H + "a = 1\n", "src/sub/b.c": "int b;\n", "build/out.log": "ignored\n", "untracked.py": "u = 1\n", ".gitignore": "*.log\nbuild/\n",
                 "src/debug.log": "ignored too\n", "LICENSES/MIT.txt": "mit\n", "@git": ["src/a.py", "src/sub/b.c", ".gitignore", "LICENSES/MIT.txt"]}
     t["symlinks"] = {"src/a.py": H + "a = 1\n", "src/sub/b.c": "int b;\n", "LICENSES/MIT.txt": "mit\n",
@@ -63,6 +64,7 @@ MENU = {
     "annotate-r-fallback": (["annotate", "--license", "MIT", "--fallback-dot-license", "-r", "."], "."),
     "annotate-r-from-src": (["annotate", *ANN, "--skip-unrecognised", "-r", "."], "src"),
     "convert-dep5": (["convert-dep5"], "."),
+    "convert-dep5-from-src": (["--root", "..", "convert-dep5"], "src"),
     "download-source-existing": (["download", "--source", "vendor-texts", "LicenseRef-x"], "."),
     "download-source-new": (["download", "--source", "vendor-texts/LicenseRef-y.txt", "LicenseRef-y"], "."),
     "download-existing": (["download", "MIT"], "."),
@@ -208,7 +210,7 @@ def step(recipe, cmd):
                 link = any(before.get("proj/" + "/".join(p.split("/")[:i]), ("",))[0] == "l" for i in range(1, len(p.split("/")) + 1))
                 why.append(f"{p}{' (via symlink)' if link else ''}")
             viols.append((f"annotate-touched-unrelated|{cmd}", f"{label}: touched {why}; allowed only {sorted(allowed)[:12]}"))
-    elif cmd == "convert-dep5":
+    elif cmd.startswith("convert-dep5"):
         has = "proj/.reuse/dep5" in before
         if has and out.exit_code == 0:
             if rm != [".reuse/dep5"] or cr != ["REUSE.toml"] or cch:
